@@ -161,6 +161,21 @@ META = {
         assumptions=[],
         timeout=2400,
     ),
+    "C03": dict(
+        rule="(a) one local transaction (1-3 generated statements; integer, string and composite keys) - observed: the "
+             "raw BranchRegisterRequest.LockKey; oracle: every row that differs across any statement (read inside the "
+             "transaction) is named, with the right table, in the key text; (b) SELECT ... FOR UPDATE inside a global "
+             "transaction, autocommit and explicit, matching 0/1/many rows, with the coordinator answering lockable / "
+             "conflict / failure - observed: rows or error, lock query sent and naming the selected rows, local row locks "
+             "and open transactions afterwards; (c) 2-3 concurrent global transactions with statements aimed at the same "
+             "few rows, a random interleaving of their local transactions and ends, a coordinator with a real lock table - "
+             "observed: which local transactions go through and the final table; oracle: no row is written by a global "
+             "transaction while another still-active one has written it",
+        trusted=["memdb row locks (InnoDB semantics: ROLLBACK TO SAVEPOINT keeps row locks); the harness's coordinator lock table"],
+        assumptions=["(c) interleaves at the granularity of local transactions (each runs to completion before the next starts)"],
+        compare=lambda cid, impl, model, tags: cid.startswith("c03-k") and model.split(":img=")[0] == impl,
+        timeout=2400,
+    ),
     "C02": dict(
         rule="one AT local transaction (autocommit statement, or explicit BEGIN/1-2 statements/COMMIT; UPDATE, DELETE or "
              "INSERT that certainly changes a row) inside a global transaction, run once fault-free and then once per "
